@@ -186,6 +186,39 @@ fn main() {
                 }
             }
         }
+        "deep" => {
+            // debug: pfv deep <proto> <x-hex> <y-hex> <steps>: greedy long steering, opcode histogram
+            let proto: u8 = args[2].parse().unwrap();
+            let x = u8::from_str_radix(&args[3], 16).unwrap();
+            let y = u8::from_str_radix(&args[4], 16).unwrap();
+            let t: usize = args[5].parse().unwrap();
+            let base = Config::default_for(proto, Entropy::Bytes(vec![]));
+            let st = workload::steer_long(&base, t, false, 48, workload::greedy_policy(x, y));
+            println!("matched={} runs={} complete={}", st.matched, st.runs, st.complete);
+            let r = run_case(&st.cfg, Some(pickle_fuzzer::verif::Config { snapshots: false, choices: false, step_limit: 0 }));
+            let (mut body, mut tail) = (0usize, 0usize);
+            for e in &r.events {
+                if let pickle_fuzzer::verif::Event::Step { phase, .. } = e {
+                    match phase {
+                        pickle_fuzzer::verif::Phase::Body => body += 1,
+                        pickle_fuzzer::verif::Phase::Tail => tail += 1,
+                        _ => {}
+                    }
+                }
+            }
+            println!("body_steps={} tail_steps={}", body, tail);
+            if let Outcome::Ok(b) = &r.outcome {
+                let mut h = std::collections::BTreeMap::new();
+                if let Ok(lx) = lexer::lex(b) {
+                    for i in &lx.ins {
+                        *h.entry(i.op.name).or_insert(0usize) += 1;
+                    }
+                }
+                println!("bytes={} {:?}", b.len(), h);
+            } else {
+                println!("outcome not ok");
+            }
+        }
         "analyze" => {
             // debug: analyze a hex pickle with O1/O2 and print the verdict
             let b = if let Some(p) = args[2].strip_prefix("@") {
@@ -406,6 +439,10 @@ mod mon_bytes_run {
         // W5: recipe-steered object-heavy and alias-heavy pickles (typed opcodes, DUP aliases)
         let st = crate::mon_trace::steered_block(if thorough { 40_000 } else { 4_000 }, seed, true, &check_c01);
         acc.merge(st);
+        // deep-state block: one opcode greedily for thousands of steps
+        let deep_sizes: Vec<usize> = if thorough { vec![4200, 11_000, 20_500] } else { vec![4200, 20_500] };
+        let deep = crate::mon_trace::deep_block(if thorough { 1500 } else { 150 }, seed, pickle_fuzzer::verif::Config { snapshots: false, choices: false, step_limit: 0 }, &deep_sizes, &check_c01);
+        acc.merge(deep);
         cli_layer(&mut acc, thorough, false, check_c01);
         for h in big_handles {
             match h.join() {
@@ -466,6 +503,10 @@ mod mon_bytes_run {
             |a, b| a.merge(b),
         );
         acc.merge(long);
+        // deep-state block: one opcode greedily for thousands of steps
+        let deep_sizes: Vec<usize> = if thorough { vec![4200, 11_000, 20_500, 70_000] } else { vec![4200, 20_500] };
+        let deep = crate::mon_trace::deep_block(if thorough { 1500 } else { 150 }, seed, pickle_fuzzer::verif::Config { snapshots: false, choices: false, step_limit: 0 }, &deep_sizes, &check_c02);
+        acc.merge(deep);
         cli_layer(&mut acc, thorough, false, check_c02);
         if acc.get("GET_family_executed") < 1000 || acc.get("PUT_family_executed") < 1000 {
             acc.inconclusive.push("too few memo opcodes observed".into());
@@ -497,6 +538,10 @@ mod mon_bytes_run {
         };
         let acc2 = bulk(n2, seed ^ 0xE474, &sp2, None, check_c04);
         acc.merge(acc2);
+        // deep-state block: one opcode greedily for thousands of steps
+        let deep_sizes: Vec<usize> = if thorough { vec![4200, 20_500, 70_000] } else { vec![4200, 20_500] };
+        let deep = crate::mon_trace::deep_block(if thorough { 1500 } else { 150 }, seed, pickle_fuzzer::verif::Config { snapshots: false, choices: false, step_limit: 0 }, &deep_sizes, &check_c04);
+        acc.merge(deep);
         cli_layer(&mut acc, thorough, true, check_c04);
         if acc.get("cases_unsafe") < 1000 {
             acc.inconclusive.push("too few unsafe-mode cases".into());
@@ -515,6 +560,10 @@ mod mon_bytes_run {
         let mut sp = Space::safe();
         sp.ranges.extend_from_slice(&[(2, 2), (3, 3), (4, 4), (5, 5), (6, 6)]);
         let mut acc = bulk(n, seed, &sp, None, check_c05);
+        // deep-state block: one opcode greedily for thousands of steps
+        let deep_sizes: Vec<usize> = if thorough { vec![4200, 11_000, 20_500] } else { vec![4200, 20_500] };
+        let deep = crate::mon_trace::deep_block(if thorough { 1500 } else { 150 }, seed, pickle_fuzzer::verif::Config { snapshots: false, choices: false, step_limit: 0 }, &deep_sizes, &check_c05);
+        acc.merge(deep);
         cli_layer(&mut acc, thorough, false, check_c05);
         for p in 0..6 {
             if acc.get(&format!("pickles_P{}", p)) < 100 {
